@@ -4,11 +4,13 @@ import LlgoVerif.Model.HMap
 /-! Line-protocol driver for C06 (`modeld_c06`): the bucket-level map model driven with the real hashes.
 
     kind <reflexive> <needKeyUpdate> <hashMightPanic>      (0/1 each; resets everything)
+    hashkey <a>           hashkey[0] of the real runtime (memhash of the non-NaN part of a NaN-holding complex key)
     rand v v …            append to the fastrand script
     mk <hint> | nil | clr | len
     set <K> <v> | get <K> | get1 <K> | del <K>
     itn <slot> (NewMapIter + first MapIterNext) | itx <slot>
-  <K> = cls,repr,refl,unhashable,nankind,hash(hex)   (eq a b := a.refl ∧ b.refl ∧ a.cls = b.cls)
+  <K> = cls,repr,refl,unhashable,nanspec,hash(hex)   (eq a b := a.refl ∧ b.refl ∧ a.cls = b.cls)
+  nanspec = `-` | `<4|8>[A]:<part>/<part>…`, part = n (NaN) | z (±0) | v<hex bits> | u<hex> / w<hex> (4/8-byte memhash'ed field); `A` = boxed in an interface
   answer: `<result> | st=count,flags,B,noverflow,nevacuate,growing,hash0 fr=<fastrand calls> th=<throws>` -/
 open LlgoVerif LlgoVerif.Util LlgoVerif.HMap
 
@@ -17,41 +19,79 @@ structure DK where
   repr : Nat := 0
   refl : Bool := true
   unh : Bool := false
-  nanKind : Nat := 0
+  /-- float components of a `k != k` key, in hashing order: (0 zero | 1 NaN | 2 other, bits) -/
+  parts : List (Nat × UInt64) := []
+  width : Nat := 8
+  boxed : Bool := false
   hash : UInt64 := 0
 deriving Inhabited
 
 def c0 : UInt64 := 33054211828000289
 def c1 : UInt64 := 23344194077549503
 
-/-- alg.go: `f64hash` on NaN (kind 0), `nilinterhash` over `f64hash` on NaN (kind 1) -/
-def nanHash (seed : UInt32) (k : DK) (x : UInt32) : UInt64 :=
-  let h := seed.toUInt64
-  let r := x.toUInt64
-  if k.nanKind == 0 then c1 * (c0 ^^^ h ^^^ r) else c1 * (c1 * (c0 ^^^ (h ^^^ c0) ^^^ r))
+def m1 : UInt64 := 0xa0761d6478bd642f
+def m2 : UInt64 := 0xe7037ed1a0b428db
+def m5 : UInt64 := 0x1d8e4e27c47d124f
+
+/-- hash64.go `mix` -/
+def mix (a b : UInt64) : UInt64 :=
+  let p := a.toNat * b.toNat
+  UInt64.ofNat (p / 2 ^ 64) ^^^ UInt64.ofNat (p % 2 ^ 64)
+
+/-- hash64.go `memhash(p, seed, s)` for s = 4 or 8 (`a = b = r4/r8(p)`) -/
+def memhashW (hk0 : UInt64) (bits seed : UInt64) (w : Nat) : UInt64 :=
+  mix (m5 ^^^ UInt64.ofNat w) (mix (bits ^^^ m2) (bits ^^^ (seed ^^^ hk0 ^^^ m1)))
+
+/-- alg.go `f32hash`/`f64hash` chained over the components (`c64hash`/`c128hash`; one component = a float key),
+    `nilinterhash` around it when the key is boxed: `c1 * typehash(t, p, h ^ c0)` -/
+def nanHash (hk0 : UInt64) (seed : UInt32) (k : DK) (xs : List UInt32) : UInt64 :=
+  let h0 := if k.boxed then seed.toUInt64 ^^^ c0 else seed.toUInt64
+  let (h, _) := k.parts.foldl (fun (acc : UInt64 × List UInt32) p =>
+    let (h, xs) := acc
+    if p.1 == 0 then (c1 * (c0 ^^^ h), xs)
+    else if p.1 == 1 then (c1 * (c0 ^^^ h ^^^ (xs.headD 0).toUInt64), xs.tail)
+    else if p.1 == 3 then (memhashW hk0 p.2 h 4, xs)
+    else if p.1 == 4 then (memhashW hk0 p.2 h 8, xs)
+    else (memhashW hk0 p.2 h k.width, xs)) (h0, xs)
+  if k.boxed then c1 * h else h
 
 /-- the hashes printed by the real code so far, per (seed, key class); a key never hashed under a seed is not in
     the map under that seed, so the fallback value is never decisive -/
 abbrev HashTab := Std.HashMap (UInt32 × Nat) UInt64
 
-def mkOps (tab : HashTab) (refl upd mp : Bool) : Ops DK :=
-  { hash := fun seed k => tab.getD (seed, k.cls) k.hash, nanHash := nanHash, eq := fun a b => a.refl && b.refl && a.cls == b.cls,
+def mkOps (tab : HashTab) (hk0 : UInt64) (refl upd mp : Bool) : Ops DK :=
+  { hash := fun seed k => tab.getD (seed, k.cls) k.hash, nanHash := nanHash hk0,
+    nanCount := fun k => (k.parts.filter (·.1 == 1)).length, eq := fun a b => a.refl && b.refl && a.cls == b.cls,
     unhashable := fun k => k.unh, reflexiveKey := refl, needKeyUpdate := upd, hashMightPanic := mp }
 
 structure St where
   tab : HashTab := {}
   flags : Bool × Bool × Bool := (true, false, false)
+  hk0 : UInt64 := 1
   m : MapRef DK Nat := .nil {}
   its : List (String × Iter DK Nat) := []
 
 def parseHex (s : String) : Option UInt64 :=
   s.toList.foldlM (fun (acc : Nat) c => (hexVal c).map (fun d => acc * 16 + d)) 0 |>.map UInt64.ofNat
 
+def parsePart (p : String) : Option (Nat × UInt64) :=
+  if p == "n" then some (1, 0) else if p == "z" then some (0, 0)
+  else if p.startsWith "v" then (parseHex (p.drop 1).toString).map (fun b => (2, b))
+  else if p.startsWith "u" then (parseHex (p.drop 1).toString).map (fun b => (3, b))      -- 4-byte regular field
+  else if p.startsWith "w" then (parseHex (p.drop 1).toString).map (fun b => (4, b))      -- 8-byte regular field
+  else none
+
 def parseKey (s : String) : Option DK :=
   match s.splitOn "," with
   | [a, b, c, d, e, f] => do
     let h ← parseHex f
-    pure { cls := ← a.toNat?, repr := ← b.toNat?, refl := c == "1", unh := d == "1", nanKind := ← e.toNat?, hash := h }
+    let k : DK := { cls := ← a.toNat?, repr := ← b.toNat?, refl := c == "1", unh := d == "1", hash := h }
+    if e == "-" then pure k
+    else match e.splitOn ":" with
+      | [w, ps] => do
+        let parts ← (ps.splitOn "/").mapM parsePart
+        pure { k with parts := parts, width := if w.startsWith "4" then 4 else 8, boxed := w.endsWith "A" }
+      | _ => none
   | _ => none
 
 def errStr : Err → String
@@ -78,7 +118,7 @@ def pruneSt (s : St) : St :=
     { s with m := .ref (h.prune keep) }
   | _ => s
 
-def St.ops (s : St) : Ops DK := mkOps s.tab s.flags.1 s.flags.2.1 s.flags.2.2
+def St.ops (s : St) : Ops DK := mkOps s.tab s.hk0 s.flags.1 s.flags.2.1 s.flags.2.2
 
 def St.seed (s : St) : UInt32 := match s.m with | .ref h => h.hash0 | .nil _ => 0
 
@@ -91,6 +131,10 @@ def step (s : St) (line : String) : St × String :=
     (s, ans ++ " | " ++ stStr s.m)
   match fields line with
   | ["kind", a, b, c] => fin { flags := (a == "1", b == "1", c == "1") } "ok"
+  | ["hashkey", a] =>
+    match a.toNat? with
+    | some n => fin { s with hk0 := UInt64.ofNat n ||| 1 } "ok"
+    | none => (s, "bad-op")
   | "rand" :: vs =>
     match vs.mapM (fun v => v.toNat?.map UInt32.ofNat) with
     | some l => fin { s with m := addRand s.m l } "ok"
